@@ -9,6 +9,25 @@ NA = {
  "C16": "'exactly n clocks' is an arithmetic statement about counters over time (and about C01); a static rule could only restate the source (static analysis not applicable)",
  "C20": "AXI4-Lite correctness is a protocol property over valid/ready interleavings on five channels; the only structural clause (apply_mask) is covered under C18 (static analysis not applicable)",
 }
+AI = "abstract interpretation of the functions' ASTs (sa/absint.py: symbolic bit vectors, opaque operators, finite literal domains; cohdl is never imported)"
+TECH = {
+ "C01": "static analysis: syntax-directed rules over the lowering code (transition placement, state registration, back/restart edges, fail-closed dispatch, save/restore pairing of loop bookkeeping, mirror comparison of the if/else merge arms, with/async-with exit on every path, straight-line condition of the case-when lowering); structural pattern matching with metavariables for locals",
+ "C02": "static analysis: table extraction and role analysis across the operator pipeline (replacement rows, intrinsic->out->ir->vhdl hand-over, VHDL tokens, tracer dispatch tables, cohdl.op protocol), sibling diff Unsigned<->Signed, all-integer sign/exactness domain for truncating division, 81-case evaluation of format_cast typed against numeric_std, " + AI + " for run-time resize and view offsets",
+ "C03": "static analysis: six-stage chain analysis of the assignment operators, reset/push set extraction, alias rules, value-flow analysis of the rewriting traversals (F-WRITEBACK), with-exit rule, mirror rule of the if/else merge",
+ "C04": "static analysis: guard analysis of the reset wrappers, polarity evaluation on the two-point domain, truth-table evaluation of derived resets, admission condition and expansion of the reset set, default/noreset propagation rules",
+ "C05": "static analysis: front-end guard matrix extraction, 81-case abstract evaluation of format_cast typed against numeric_std, trial-assignment direction rules, join rules incl. call sites, " + AI + " of the bool literal twins, shadowed-kind-test lint over the package",
+ "C06": "static analysis: reserved-word/vocabulary tables against IEEE 1076-2008, tokenised template balance, name allocation rule, others/sensitivity rules, buffer/alias-scope rules, cast matrix, operand-visit and shadowed-kind-test lints",
+ "C07": "static analysis: IR access flags vs. assembler roles (F-ROLE), guard analysis of the usage check, view rules incl. " + AI + " of slice offsets, value-flow of rewriting traversals, name allocation and buffer rules",
+ "C08": "static analysis: abstract interpretation of search_invalid_temporaries over a Venn-region universe of definition sets (sa/regionsets.py), guard analysis of the temporary checks, ordering rules of the passes, write-back / ref-spec / state-root rules",
+ "C09": "static analysis: sibling diff Unsigned<->Signed, all-integer sign/exactness domain for truncating division with operand-role resolution, documented width table, literal-range formulas, cast matrix, " + AI + " of multi-index selection and run-time resize",
+ "C10": "static analysis: tracer operator tables against the Python data model, dispatch/chain/boolean folding rules, fail-closed tails, argument-binding order, free-name resolution order, " + AI + " of starred unpacking and min/max, With/AsyncWith twin diff, definition-cache purge domain",
+ "C11": "static analysis: inventory of module/class-level mutable state, set/reset pairing with wrapper lifting and compile-boundary restores (exception paths), reviewed kinds table re-verified structurally, unordered-iteration lint, snapshot-copy lint, dynamic-port snapshot lifetime, purge domain",
+ "C12": "static analysis: interface/port-map/template/ordering rules of the entity pipeline, registration with the innermost block, " + AI + " of IdSet ordering, shared trial-assignment, buffer, discard and usage rules",
+ "C13": "static analysis: get-or-create rule with key-completeness dataflow (every input the class depends on is in the key), own-cache rule, base-class lattice extraction (role-resolved canonical view), value-view aliasing rules, " + AI + " of slice/element/iteration offsets",
+ "C17": AI + " of to_bits/from_bits for core types, Record, std.Array, BitField (round trip and documented layout for all bit values, bounded widths), adapters and template-order rules, Value-qualifier pass-through guard, view offsets",
+ "C18": AI + " of the std helpers over symbolic bits (fold order, layouts, first extremum, result widths, mask, CRC division step, choose_first) with stated bounds; view offsets",
+ "C19": AI + " of the fixed-point format algebra, constructors, rounding and saturation blocks (bounded formats), sibling diff SFixed<->UFixed, __eq__/__hash__ lint of the template argument, shared replacement-row, cast-matrix and choose_first rules",
+}
 props = [json.loads(l) for l in open(os.path.join(ROOT, "properties.jsonl"))]
 checks, na = [], []
 for p in props:
@@ -29,13 +48,13 @@ for p in props:
         "engine": "sa",
         "level_claimed": {"category": getattr(mod, "LEVEL", "other"), "text": M.get("level_text", mod.EXPLANATION), "design_ref": M.get("design_ref", f"DESIGN.md section 4, {pid}")},
         "level_note": M.get("level_note", "; ".join(getattr(mod, "ASSUMPTIONS", []))),
-        "technique": M.get("technique", "static analysis: custom AST rules over the repository's syntax trees"),
+        "technique": M.get("technique", TECH.get(pid, "static analysis: custom AST rules over the repository's syntax trees")),
     })
 manifest = {
  "version": 1,
  "setup_cmd": "true",
  "hooks": {"guard": "COHDL_VERIF", "enable": "none needed: the checks never execute cohdl, they parse /repo's working tree", "baseline_off_cmd": "cd /repo && /venv/bin/python -m pytest -ra -q -p no:cacheprovider --timeout=900 --continue-on-collection-errors", "source_commits": [], "add_only": True},
- "engines": [{"name": "sa", "path": "/verif/sa", "serves_properties": [c["property_id"] for c in checks], "kind_free_text": "repository-specific static analyser (stdlib ast): source index, set/reset pairing, table extraction, sibling diff, region-set abstract interpreter"}],
+ "engines": [{"name": "sa", "path": "/verif/sa", "serves_properties": [c["property_id"] for c in checks], "kind_free_text": "repository-specific static analyser (stdlib ast only): source index with anchors, structural patterns with metavariables, set/reset pairing, table extraction, sibling diff, guard analysis, value-flow lints, two abstract interpreters (symbolic bit vectors; region sets)"}],
  "checks": checks,
  "not_applicable": na,
  "notes": "Static analysis only; exit 0 ok / 1 VIOLATION / 2 ANALYSIS-ERROR. known_findings.json lists genuine defects (fixed or known). See DESIGN.md.",
